@@ -103,8 +103,10 @@ def cases(draw):
                                         typecase=draw(st.integers(0, 4)) == 0))
     rows = draw(popgen.dirty_rows(schema_js, max_rows=4, null_ident=True))
     rows = [[cn, _no_empty_ident(schema_js, cn, row)] for cn, row in rows]
+    # API edits of the loaded model (unrelate the k-th link / delete the k-th instance), counted again afterwards
+    edits = draw(st.lists(st.tuples(st.sampled_from(['unrelate', 'unrelate', 'delete']), st.integers(0, 11)), max_size=3))
     return {'source': 'load', 'schema': schema_js, 'rows': rows, 'restr': draw(restrictions()),
-            'named': draw(st.booleans()), 'cli': draw(st.integers(0, 3)) == 0}
+            'named': draw(st.booleans()), 'cli': draw(st.integers(0, 3)) == 0, 'edits': [list(e) for e in edits]}
 
 
 def _no_empty_ident(schema_js, cn, row):
@@ -152,7 +154,7 @@ def run_case(case, res=None):
             m, text = popgen.load_rows(case['schema'], case['rows'], named=case.get('named', False))
         except Exception as e:
             fail('load-exception:' + exc_bucket(e), repr(e))
-        sh, _ = popgen.shadow_from_rows(case['schema'], case['rows'])
+        sh, shrecs = popgen.shadow_from_rows(case['schema'], case['rows'])
 
     rels = sorted(set(a['rel'] for a in sc.assocs))
     exp_all = sh.count_association_violations()
@@ -229,6 +231,31 @@ def run_case(case, res=None):
             fail('cli-main-count-wrong', 'main(%r) = %r, present %d' % (args, got, want))
         if want < exp_all + exp_uni:
             removed = True
+    if case['source'] == 'load' and case.get('edits'):
+        edited = apply_edits(case, sc, m, sh, shrecs, fail)
+        if edited:
+            classes.append('edited-after-load')
+            e_all = sh.count_association_violations()
+            e_uni = expected_uniqueness(sh)
+            try:
+                g_all = xtuml.check_association_integrity(m)
+                g_uni = xtuml.check_uniqueness_constraint(m)
+                g_cons = m.is_consistent()
+            except Exception as e:
+                fail('check-exception-after-edit:' + exc_bucket(e), repr(e))
+            if g_all != e_all:
+                fail('association-count-wrong-after-edit', 'after %r: check_association_integrity = %d, present %d' % (edited, g_all, e_all))
+            for rel in rels:
+                want = sh.count_association_violations(rel)
+                got = xtuml.check_association_integrity(m, rel)
+                if got != want:
+                    fail('restricted-association-count-wrong-after-edit', 'after %r: rel %r: %d, present %d' % (edited, rel, got, want))
+            if g_uni != e_uni:
+                fail('uniqueness-count-wrong-after-edit', 'after %r: check_uniqueness_constraint = %d, present %d' % (edited, g_uni, e_uni))
+            if g_cons != (e_all == 0 and e_uni == 0):
+                fail('is-consistent-wrong-after-edit', 'after %r: is_consistent() = %r with %d + %d violations' % (edited, g_cons, e_all, e_uni))
+            if (e_all, e_uni) != (exp_all, exp_uni):
+                removed = True
     if exp_all and exp_uni:
         classes.append('both-kinds')
     if sub_checked:
@@ -237,6 +264,45 @@ def run_case(case, res=None):
     if res is not None:
         res.case(case, nt, sample=case if nt and len(repr(case)) < 1800 else None, classes=classes)
     return exp_all, exp_uni
+
+
+def apply_edits(case, sc, m, sh, shrecs, fail):
+    """the same unrelate / delete calls on the loaded model and on the shadow; -> list of what was done"""
+    real = {}
+    for c in sc.classes:
+        for r, inst in zip(shrecs.get(c['name'].upper(), []), m.select_many(c['name'])):
+            real[id(r)] = inst
+    done = []
+    for kind, k in case['edits']:
+        if kind == 'unrelate':
+            flat = [(i, s, t) for i in range(len(sh.links)) for (s, t) in sh.links[i]]
+            if not flat:
+                continue
+            i, s, t = flat[k % len(flat)]
+            a = sc.assocs[i]
+            try:
+                sh.unrelate(s, t, a['rel'], a['src_phrase'])
+            except Exception:
+                continue        # phrase does not single out this pair in the shadow: not a call this check makes
+            try:
+                ok = xtuml.unrelate(real[id(s)], real[id(t)], a['rel'], a['src_phrase'])
+            except Exception as e:
+                fail('unrelate-after-load-exception:' + exc_bucket(e), repr(e))
+            if ok is not True:
+                fail('unrelate-after-load-returned', repr(ok))
+            done.append(['unrelate', a['rel'], s.idx, t.idx])
+        else:
+            live = [r for c in sc.classes for r in sh.live(c['name'])]
+            if not live:
+                continue
+            r = live[k % len(live)]
+            sh.delete(r)
+            try:
+                xtuml.delete(real[id(r)])
+            except Exception as e:
+                fail('delete-after-load-exception:' + exc_bucket(e), repr(e))
+            done.append(['delete', r.cls, r.idx])
+    return done
 
 
 # -- sub-process exit status ----------------------------------------------------------------
